@@ -56,7 +56,7 @@ PROPS = {
         level_note="Trusted: as C01; the key-layout decoder is white-box (anchors key.go files)."),
     "C07": chain("C07", 40, 800, floor=0.2,
         technique="property-based testing: metamorphic repetition (handler run 8x on sibling cache branches, byte-compare writes/results/events) + differential twin app instance",
-        level_text="Before each transaction its routed module handler is executed 8 times on sibling branches of the same state and the full store dump, result and events are compared bytewise; a second application instance in the same process receives the identical block stream and must produce identical DeliverTx responses and app hashes.",
+        level_text="Before each transaction its routed module handler is executed 8 times on sibling branches of the same state and the full store dump, result, gas consumed and events are compared bytewise (certificates expiring at the next full second are executed before and after that instant); a second application instance in the same process receives the identical block stream and must produce identical DeliverTx responses and app hashes.",
         level_note="Trusted: Go map iteration randomisation as the source of divergence (detection probability per two-key map order >= 1-2^-7 per transaction); single process, single architecture."),
     "C08": chain("C08", 60, 1500, floor=0.3,
         technique="property-based testing: rapid state machine over the real app with near-miss construction; independent set-based admission predicate evaluated on the pre-state",
@@ -105,7 +105,7 @@ PROPS = {
         "level": "exploration", "floor": 0.4,
         "fuzz": [{"pkg": "sdl", "target": "FuzzC18Read", "time": 120}],
         "technique": "property-based testing: structural SDL v2 document generator with generated YAML key permutations; determinism, faithfulness against the generator's own tree, and cross-validation oracles; native fuzzing of sdl.Read in thorough",
-        "level_text": "Documents (1-4 services with image/command/args/env/exposes, 1-3 compute profiles in integral and decimal unit forms, 1-3 placements with attributes/signedBy/pricing, deployment map) are emitted as YAML twice - canonical and with every mapping's keys permuted - and read repeatedly: groups, manifest and version must be identical; every declared field must appear unchanged in manifest and groups (decimal quantities within one unit: the parser truncates a float product); the manifest must validate against the groups of the same document.",
+        "level_text": "Documents (1-4 services with image/command/args/env/exposes, 1-3 compute profiles in integral and decimal unit forms, 1-3 placements with attributes/signedBy/pricing, deployment map) are emitted as YAML twice - canonical and with every mapping's keys permuted - and read repeatedly: groups, manifest and version must be identical; every declared field must appear unchanged in manifest and groups (decimal quantities within one unit: the parser truncates a float product); the manifest must validate against the groups of the same document. Between two reads of a document the process reads two invalid relatives of it (a service with hostnames deployed to two placements, an unknown profile): the outputs must not change. Storage and cpu attributes are generated.",
         "level_note": "Trusted: the harness's YAML emitter; a document Read rejects is skipped (counted), a panic/error on an invalid document is a rejection.",
         "assumptions": ["documents are SDL v2 produced by the structural generator; no include directives"],
         "units": [{"pkg": "sdl", "run": "^TestVerif_C18_Replay$", "checks": 1, "timeout": 300},
@@ -114,7 +114,7 @@ PROPS = {
     "C11": {
         "level": "exploration", "floor": 0.5,
         "technique": "property-based testing: generated lease ids x manifest groups x provider settings through the real builders and client.Deploy on fake clientsets; recorded API actions and stored objects checked; small semantic NetworkPolicy evaluator over probe flows",
-        "level_text": "For generated leases (extreme and textually near-colliding ids), manifest groups (1-4 services, env incl. AKASH_* overrides, TCP/UDP global/local exposes, resources at and between bounds) and settings (commit levels 0.5-8, static ingress hosts, network policies, runtime classes): every builder object and every action recorded by the fake clientsets during two Deploy rounds is confined to the lease's namespace; containers are unprivileged without escalation or service-account token; limits equal the lease and 0 < requests <= limits; namespace names are valid DNS labels and injective over the run; with policies enabled a NetworkPolicy evaluator admits ingress from outside only for the ingress controller or globally exposed ports and no non-DNS egress to RFC1918 ranges. A third of the cases injects one API error (drawn verb x resource) into the update round and retries the same manifest: whatever Deploy reports as success must leave objects matching the manifest it was given.",
+        "level_text": "For generated leases (extreme and textually near-colliding ids), manifest groups (1-4 services, env incl. AKASH_* overrides, TCP/UDP global/local exposes, resources at and between bounds) and settings (commit levels 0.5-8, static ingress hosts, network policies, runtime classes): every builder object and every action recorded by the fake clientsets during two Deploy rounds is confined to the lease's namespace; containers are unprivileged without escalation or service-account token; limits equal the lease and 0 < requests <= limits; namespace names are valid DNS labels and injective over the run; with policies enabled a NetworkPolicy evaluator admits ingress from outside only for the ingress controller or globally exposed ports and no non-DNS egress to RFC1918 ranges. A third of the cases injects one API error (drawn verb x resource) into the update round and retries the same manifest: whatever Deploy reports as success must leave objects matching the manifest it was given. After a Deploy that FAILED on the injected error, workloads left in the namespace must still be covered by the restrictions and nothing beyond the ports exposed globally by the old or new manifest may be admitted; after an update, services and ingresses must equal those of a first deploy of the same manifest.",
         "level_note": "Trusted: client-go fake clientsets as the recording cluster; the harness's NetworkPolicy evaluator (standard additive allow semantics); 'private ranges' = RFC1918.",
         "assumptions": ["manifest groups are valid per ValidateManifest; a Deploy error is a refusal, not a violation"],
         "units": [{"pkg": "provider/cluster/kube", "run": "^TestVerif_C11$", "checks": {Q: 400, T: 8000}, "shards": {Q: 2, T: 16}, "timeout": {Q: 600, T: 3000}, "shrinktime": "30s"}],
@@ -122,11 +122,12 @@ PROPS = {
     "C09": {
         "level": "exploration", "floor": 0.3,
         "technique": "property-based testing: generated client-certificate classes against the real cert keeper/querier behind tls.Config.VerifyPeerCertificate, real TLS 1.3 handshakes against an httptest server built from the gateway's router and TLS config, generated request paths/parameters with recorded lease/deployment ids",
-        "level_text": "Certificates are built with crypto/x509 in 14 classes (genuine; forged copies of a valid entry's name+serial with a fresh key or another tenant's key; revoked; unknown; expired; not yet valid; without client-auth usage; two-element chains; non-address CN; differing issuer; re-issued by the registered key; expired twin of a valid entry; foreign CN) and registered through the real cert keeper; VerifyPeerCertificate must accept exactly the genuine class. Real handshakes confirm what a client observes, and for every generated path (numbers, overflowing numbers, other tenants' addresses, '..', encoded slashes, owner=/provider= parameters) every id recorded by the mocked cluster/manifest services carries the authenticated owner and this provider. A third unit runs 2-4 verifications concurrently on ONE TLS configuration with every chain lookup gated by the harness (generated start/return order): each verdict must equal the sequential one (genuine accepted; forged copy, revoked, unknown rejected).",
+        "level_text": "Certificates are built with crypto/x509 in 14 classes (genuine; forged copies of a valid entry's name+serial with a fresh key or another tenant's key; revoked; unknown; expired; not yet valid; without client-auth usage; two-element chains; non-address CN; differing issuer; re-issued by the registered key; expired twin of a valid entry; foreign CN) and registered through the real cert keeper; VerifyPeerCertificate must accept exactly the genuine class. Real handshakes confirm what a client observes, and for every generated path (numbers, overflowing numbers, other tenants' addresses, '..', encoded slashes, owner=/provider= parameters) every id recorded by the mocked cluster/manifest services carries the authenticated owner and this provider. A third unit runs 2-4 verifications concurrently on ONE TLS configuration with every chain lookup gated by the harness (generated start/return order): each verdict must equal the sequential one (genuine accepted; forged copy, revoked, unknown rejected). A fourth unit runs register / revoke / present histories on one TLS configuration (certificates that may issue others, forged copies signed by a valid or revoked sibling certificate of the same account): the verdict depends on the chain state at that moment only.",
         "level_note": "Trusted: Go crypto/tls and crypto/x509; wall clock only inside the code under test (validity windows are days away from the boundary); provider services are mockery mocks that record their arguments.",
         "assumptions": ["ECDSA P-256 certificates; TLS 1.3"],
         "units": [
             {"pkg": "provider/gateway/rest", "run": "^TestVerif_C09_Replay$", "checks": 1, "timeout": 300},
+            {"pkg": "provider/gateway/rest", "run": "^TestVerif_C09_History$", "checks": {Q: 400, T: 8000}, "shards": {Q: 2, T: 16}, "timeout": {Q: 600, T: 3000}, "shrinktime": "30s"},
             {"pkg": "provider/gateway/rest", "run": "^TestVerif_C09_Overlap$", "checks": {Q: 300, T: 6000}, "shards": {Q: 2, T: 16}, "race": {Q: False, T: True}, "timeout": {Q: 600, T: 3000}, "shrinktime": "30s"},
             {"pkg": "provider/gateway/rest", "run": "^TestVerif_C09_Verify$", "checks": {Q: 400, T: 8000}, "shards": {Q: 2, T: 16}, "timeout": {Q: 600, T: 3000}, "shrinktime": "30s"},
             {"pkg": "provider/gateway/rest", "run": "^TestVerif_C09_Handshake$", "checks": {Q: 150, T: 2000}, "shards": {Q: 2, T: 16}, "timeout": {Q: 600, T: 3000}, "shrinktime": "30s"},
@@ -144,7 +145,7 @@ PROPS = {
     "C13": {
         "level": "fault_enumeration", "floor": 0.4,
         "technique": "property-based testing with a harness-owned schedule: every asynchronous step of the real order monitor is gated; generated sequences of completions, single failures, chain events, bid timeout and shutdown; call-log oracle at termination",
-        "level_text": "A real order monitor (newOrderInternal) runs over a real bus while the harness gates group fetch, existing-bid query, auditor lookup, Reserve, pricing, create-bid and close-bid broadcasts and Unreserve. Generated schedules complete steps (ok or failing), publish order-closed / lease-created events for this and other orders/providers/groups, shut the parent down or let a bid timeout fire, in particular while steps are in flight, and finally complete whatever is still in flight. Over the call log: at most one create-bid, never above the group's maximum price, only after a successful reservation; unless the lease was won every successful reservation is followed by an Unreserve and an existing bid by a close-bid; the monitor always terminates. When a bid timeout is configured, steps still in flight at termination may outlast it before they complete. A scripted replay unit re-runs the shrunk schedules of the two findings.",
+        "level_text": "A real order monitor (newOrderInternal) runs over a real bus while the harness gates group fetch, existing-bid query, auditor lookup, Reserve, pricing, create-bid and close-bid broadcasts and Unreserve. Generated schedules complete steps (ok or failing), publish order-closed / lease-created events for this and other orders/providers/groups, shut the parent down or let a bid timeout fire, in particular while steps are in flight, and finally complete whatever is still in flight. Over the call log: at most one create-bid, never above the group's maximum price, only after a successful reservation; unless the lease was won every successful reservation is followed by an Unreserve and an existing bid by a close-bid; the monitor always terminates. When a bid timeout is configured, steps still in flight at termination may outlast it before they complete. A scripted replay unit re-runs the shrunk schedules of the two findings. On the restart path the chain may hold this provider's bid open or already closed; once that is known no create-bid may follow.",
         "level_note": "Trusted: when two channels are ready at once the Go runtime's select picks - both outcomes are legal schedules and the oracle is schedule independent; bounded waits (20 s) only detect wedging.",
         "assumptions": ["single failure injection per step; Unreserve/close-bid calls count as released/closed even if the call itself fails"],
         "units": [{"pkg": "provider/bidengine", "run": "^TestVerif_C13_Replay$", "checks": 1, "timeout": 300},
